@@ -11,7 +11,7 @@ cd "$WT"
 PYTHONPATH="$WT" timeout 300 /venv/bin/python "$SRC/demo.py" >/tmp/vs_clean.log 2>&1; C=$?
 git apply "$SRC/patch.diff" || { echo "patch does not apply"; exit 2; }
 PYTHONPATH="$WT" timeout 300 /venv/bin/python "$SRC/demo.py" >/tmp/vs_mut.log 2>&1; M=$?
-PYTHONPATH="$WT" timeout 1200 /venv/bin/python -m pytest -q -p no:cacheprovider --timeout=900 -x >/tmp/vs_tests.log 2>&1; T=$?
+unshare -n sh -c "ip link set lo up; PYTHONPATH=$WT timeout 1200 /venv/bin/python -m pytest -q -p no:cacheprovider --timeout=900 -x" >/tmp/vs_tests.log 2>&1; T=$?
 SUMMARY=$(tail -1 /tmp/vs_tests.log)
 echo "demo clean exit=$C  demo mutated exit=$M  tests exit=$T ($SUMMARY)"
 if [ "$C" = 0 ] && [ "$M" = 1 ] && [ "$T" = 0 ]; then
